@@ -80,7 +80,9 @@ pub fn exponent(r: &Recipe) -> i32 {
 pub fn check_recipe(r: &Recipe, max_len: usize, stats: &mut Stats) -> Result<(), Failure> {
     // "arbitrary bytes" includes valid digits: one case in eight is a valid input from the families that
     // load the big-integer code hardest (boundaries, long tails, sparse-limb integers, maximal big integers)
-    let (int, frac, exp) = if r.sel[7] < 0x2000 {
+    // (not under the interpreter: building boundary inputs with the harness's own bignum is what takes an hour
+    // there; the targeted Miri stage parses natively generated valid inputs instead)
+    let (int, frac, exp) = if r.sel[7] < 0x2000 && !cfg!(miri) {
         let c = super::c04::case_of(r, gen::Limits { long: 2_000, huge: max_len });
         (c.int, c.frac, c.exp)
     } else {
